@@ -437,3 +437,102 @@ OBLIGATIONS.append(Ob('userf_twice_n3', make_userf_twice(3), ['-3 <= a <= 3', '-
 OBLIGATIONS.append(Ob('plain_item_n3', make_plain(3), timeout=tier(200, 900), data='3 unbounded int elements', selectors='sort=sequence-item over plain ints (recorder observes the order)'))
 OBLIGATIONS.append(Ob('reverse_n3', make_revonly(3), timeout=tier(200, 900), data='int keys, reverse_expr truth value', selectors='reverse alone; sort=k reverse_expr="r"'))
 OBLIGATIONS.append(Ob('userf_n3', make_userf(3), ['-3 <= a <= 3', '-3 <= b <= 3', '-3 <= c <= 3'], timeout=tier(250, 900), data='int keys -3..3', selectors='sort=k/mycmp (comparison function from the namespace)'))
+
+
+# ---------------------------------------------------------------- wave 3: None / missing keys with /nocase, callables returning None,
+# sort_expr naming the element itself
+T_NOCASE_MAP = cooked('<dtml-in seq mapping sort=k/nocase><dtml-var i>,</dtml-in>')
+T_NOCASE_TWO = cooked('<dtml-in seq sort="k/nocase,j"><dtml-var i>,</dtml-in>')
+T_NOCASE_DESC = cooked('<dtml-in seq sort=k/nocase/desc><dtml-var i>,</dtml-in>')
+WORDS_OPT = ['a', 'A', 'b', 'B', 'ab', '', None, 'MISSING']
+
+
+def make_nocase_opt(n, variant):
+    """keys from a pool that includes None and 'attribute / mapping key absent': those elements come first, the others are ordered
+    case-insensitively and stably"""
+    def ob(a: int, b: int, c: int, d: int) -> bool:
+        ws = [WORDS_OPT[pick(x, len(WORDS_OPT))] for x in [a, b, c, d][:n]]
+        keys = [None if w == 'MISSING' else w for w in ws]
+        seq = []
+        for i, w in enumerate(ws):
+            if variant == 'map':
+                m = {'i': i}
+                if w != 'MISSING':
+                    m['k'] = w
+            else:
+                m = O(i=i, j=0)
+                if w != 'MISSING':
+                    m.k = w
+            seq.append(m)
+        t = {'map': T_NOCASE_MAP, 'attr': T_NOCASE, 'two': T_NOCASE_TWO, 'desc': T_NOCASE_DESC}[variant]
+        got, same = render_order(t, seq)
+        if variant == 'desc':
+            # /desc inverts the key's order; where the None / missing keys go then is not specified: compare the rest only
+            return same and check(got, keys, lambda x, y: keys[x].lower() > keys[y].lower(), nones_first=False)
+        return same and check(got, keys, lambda x, y: keys[x].lower() < keys[y].lower())
+    ob.__name__ = 'ob_nocase_opt_%s_%d' % (variant, n)
+    return ob
+
+
+for _v in ('attr', 'map', 'two', 'desc'):
+    OBLIGATIONS.append(Ob('nocase_optional_%s_n3' % _v, make_nocase_opt(3, _v), ['0 <= %s < 8' % v for v in 'abcd'], timeout=tier(200, 900),
+                          data='key index 0..7 (symbolic) into %r (None and absent keys included)' % WORDS_OPT,
+                          selectors={'attr': 'sort=k/nocase', 'map': 'sort=k/nocase mapping', 'two': 'sort="k/nocase,j"', 'desc': 'sort=k/nocase/desc'}[_v]))
+
+
+class OptFn:
+    """callable sort key that returns None for some elements"""
+
+    def __init__(self, v, none):
+        self.v, self.none = v, none
+
+    def __call__(self):
+        return None if self.none else self.v
+
+
+T_TWO_FN = cooked('<dtml-in seq sort=k,j><dtml-var i>,</dtml-in>')
+T_ATTR_DESC = cooked('<dtml-in seq sort=k/cmp/asc><dtml-var i>,</dtml-in>')
+
+
+def make_callable_none(n, variant):
+    def ob(a: int, b: int, c: int, na: bool, nb: bool, nc: bool) -> bool:
+        vals = [a, b, c][:n]
+        nn = [na, nb, nc][:n]
+        keys = [None if nn[i] else vals[i] for i in range(n)]
+        seq = [O(k=OptFn(vals[i], nn[i]), j=0, i=i) for i in range(n)]
+        t = {'single': T_ATTR, 'two': T_TWO_FN, 'cmpfn': T_ATTR_DESC, 'batch': T_ATTR_B}[variant]
+        got, same = render_order(t, seq)
+        return same and check(got, keys, lambda x, y: keys[x] < keys[y])
+    ob.__name__ = 'ob_callable_none_%s_%d' % (variant, n)
+    return ob
+
+
+for _v in ('single', 'two', 'cmpfn', 'batch'):
+    OBLIGATIONS.append(Ob('callable_none_%s_n3' % _v, make_callable_none(3, _v), timeout=tier(250, 900),
+                          data='3 callable keys returning an unbounded int or None (symbolic bit each)',
+                          selectors={'single': 'sort=k', 'two': 'sort=k,j', 'cmpfn': 'sort=k/cmp/asc', 'batch': 'sort=k size=20'}[_v]))
+
+T_EXPR_ITEM = cooked('<dtml-in seq sort_expr="sk"><dtml-call "rec(_[\'sequence-item\'])"></dtml-in>')
+T_EXPR_ITEM_T = cooked('<dtml-in seq sort_expr="sk"><dtml-call "rec(_[\'sequence-key\'])"></dtml-in>')
+
+
+def make_expr_item(n):
+    """a sort_expr whose value is '' or 'sequence-item' orders by the element itself (by the key of 2-tuples), like sort= does"""
+    def ob(a: int, b: int, c: int, named: bool, tuples: bool) -> bool:
+        vals = [a, b, c][:n]
+        seq = [(v, {'v': v}) for v in vals] if tuples else list(vals)
+        seen = []
+        (T_EXPR_ITEM_T if tuples else T_EXPR_ITEM)(seq=seq, rec=seen.append, sk='sequence-item' if named else '')
+        exp = stable_sorted(list(range(n)), lambda x, y: vals[x] < vals[y])
+        if len(seen) != n:
+            return False
+        for i in range(n):
+            if seen[i] != vals[exp[i]]:
+                return False
+        return True
+    ob.__name__ = 'ob_sortexpr_item_%d' % n
+    return ob
+
+
+OBLIGATIONS.append(Ob('sort_expr_item_n3', make_expr_item(3), timeout=tier(250, 900), data='3 unbounded int elements / tuple keys; bits: value of sort_expr is "sequence-item" or "", elements are 2-tuples',
+                      selectors='sort_expr="sk" evaluating to the element sort'))
